@@ -748,3 +748,46 @@ pub fn nested_export_family() -> Vec<(String, String)> {
     }
     out
 }
+
+// ---------------------------------------------------------------------------------------------
+// families added after the twelfth round (appended to the case lists: nothing earlier changes)
+
+/// numeric keys that the language calls different (|a - b| well above the tolerance) although they agree to many
+/// decimals: distinct map keys
+pub fn close_keys_family() -> Vec<String> {
+    let mut out = vec![];
+    for (a, b) in [("1 / 3", "0.333333333"), ("0", "0.0000000001"), ("2 / 3", "0.666666667"), ("1000000.0000001", "1000000.0000002"), ("0.1 + 0.7", "0.8000001"), ("123456789.123456", "123456789.123457")] {
+        out.push(format!("IMPORT MOD \"MAP\"\nm <- MAP()\na <- {a}\nb <- {b}\nDISPLAY(a == b)\nDISPLAY(MAP_INSERT(m, a, \"first\"))\nDISPLAY(MAP_INSERT(m, b, \"second\"))\nDISPLAY(MAP_GET(m, a))\nDISPLAY(MAP_GET(m, b))\nDISPLAY(MAP_CONTAINS_KEY(m, b))\nDISPLAY(LENGTH(MAP_KEYS(m, 0)))\nDISPLAY(LENGTH(MAP_VALUES(m, 0)))\nm2 <- MAP()\nDISPLAY(MAP_INSERT(m2, a, 1))\nDISPLAY(MAP_CONTAINS_KEY(m2, b))\nDISPLAY(MAP_GET(m2, b))\n"));
+    }
+    out
+}
+
+/// RETURN followed by every kind of token an expression can start with (and by the tokens that end the statement)
+pub fn return_value_starts() -> Vec<String> {
+    let mut out = vec![];
+    for v in ["NOT x", "not x", "-x", "- x", "(x)", "[x]", "\"s\"", "5", "TRUE", "FALSE", "NULL", "x", "f2(x)", "x[1]", "NOT NOT x", "-(x)", "x <- 1", "[]", "x AND x", "NOT (x)", "(NOT x)"] {
+        for wrap in ["PROCEDURE f(x) {\nRETURN @\n}\n", "PROCEDURE f(x) { RETURN @ }\n", "PROCEDURE f(x) RETURN @\n", "PROCEDURE f(x) {\nIF (TRUE) RETURN @\nRETURN 0\n}\n", "PROCEDURE f(x) {\nRETURN @;\n}\n"] {
+            out.push(format!("PROCEDURE f2(y) {{\nRETURN y\n}}\n{}DISPLAY(f([1]))\n", wrap.replace('@', v)));
+        }
+    }
+    out
+}
+
+/// texts with combining marks and other characters that are several code points per perceived character: every
+/// text procedure counts code points
+pub fn combining_marks_family() -> Vec<String> {
+    let mut out = vec![];
+    for s in ["cafe\u{301}!", "e\u{301}", "\u{301}e", "a\u{300}\u{301}b", "n\u{303}o", "👍🏽", "👨\u{200d}👩", "🇩🇪", "e\u{fe0f}", "x\u{36f}y"] {
+        out.push(format!("IMPORT MOD \"STRING\"\ns <- \"{s}\"\nc <- TO_CHAR_ARRAY(s)\nDISPLAY(LENGTH(s))\nDISPLAY(LENGTH(c))\nn <- 0\nFOR EACH ch IN s {{\nn <- n + 1\nDISPLAY(ch == c[n])\nDISPLAY(ch == s[n])\n}}\nDISPLAY(n)\nDISPLAY(JOIN(c, \"\") == s)\nDISPLAY(JOIN(c, \"|\"))\nDISPLAY(LENGTH(SPLIT(s, \"\")))\nDISPLAY(SUBSTRING(s, 2, 1))\nDISPLAY(LENGTH(TO_UPPER(s)))\nDISPLAY(s[LENGTH(s)])\n"));
+    }
+    out
+}
+
+/// every kind of value as the count of REPEAT n TIMES (negative, fractional, NaN, not a number), directly and computed
+pub fn repeat_count_family() -> Vec<String> {
+    let mut out = vec![];
+    for c in ["-1", "-0.5", "-0", "0", "0.5", "1", "1.5", "2.999", "NAN", "0 - INF", "\"2\"", "NULL", "TRUE", "[2]", "3 - 5", "budget - cost"] {
+        out.push(format!("INF <- 1{}\nNAN <- INF - INF\nbudget <- 2\ncost <- 3\nn <- 0\nDISPLAY(\"start\")\nREPEAT {c} TIMES {{\nn <- n + 1\n}}\nDISPLAY(n)\nREPEAT 2 TIMES {{\nREPEAT {c} TIMES {{\nn <- n + 10\nIF (n > 100) BREAK\n}}\n}}\nDISPLAY(n)\n", "0".repeat(309)));
+    }
+    out
+}
